@@ -140,6 +140,13 @@ fn run_lut<B: FullBackend>(m: &Module<B>, c: &LutCase) -> Verdict {
     if c.right {
         l.set_rotation_direction(LookUpTableRotationDirection::Right);
     }
+    if c.fseed & 1 == 1 {
+        // a table that already holds another function (of another length / precision): `set` must overwrite all of it
+        let len0 = 1usize << ((c.fseed >> 8) as usize % (c.len_log as usize + 1));
+        let k0 = (1 + (c.fseed >> 16) as usize % (size * b).min(40)).max(1);
+        let f0 = fvals(len0, k0, c.fseed ^ 0xAAAA);
+        l.set(m, &f0, k0);
+    }
     l.set(m, &f, k);
     let (p0, drift) = model_table(&f, domain);
     if l.verif_drift() != drift {
@@ -361,6 +368,11 @@ pub fn run_br<B: FullBackend>(m: &Module<B>, c: &BrCase, c12: bool) -> Verdict {
     let mut lut = LookupTable::alloc(&LookUpTableLayout { n: Degree(n as u32), extension_factor: ext, k: TorusPrecision((lut_size * b) as u32), base2k: Base2K(b as u32) });
     if c.right {
         lut.set_rotation_direction(LookUpTableRotationDirection::Right);
+    }
+    if c.seed & 1 == 1 {
+        // reused table: it held another function before
+        let f0 = fvals(1 << p, k_msg, c.seed ^ 0xAAAA);
+        lut.set(m, &f0, k_msg);
     }
     lut.set(m, &f, k_msg);
     let step = domain >> p;
